@@ -18,7 +18,7 @@ LEVEL = "model_checking"
 RULE = (
     "All (W, E) on the 5-degree lattice of [-180, 360] with |E-W| <= 360 whose eastward arc is contiguous in the [0,360] or the "
     "[-180,180] convention (non-representable arcs are enumerated and counted as outside the quantifier), x 3 latitude bands "
-    "(region only) + the whole lattice of longitudes as a 1-D array and as 2-D arrays with a third coordinate; every returned "
+    "(region only) + the whole lattice of longitudes as a 1-D array, as 2-D arrays with a third coordinate, and the sub-arrays of non-negative / <= 180 / seam-only longitudes (arrays that already look like one convention); every returned "
     "bound and longitude is checked with exact arithmetic mod 360 and every lattice longitude's membership with verde.inside. "
     "Non-trivial: representable arc of non-zero width, or an invalid input that must be refused."
 )
@@ -69,7 +69,8 @@ def cases(tier, seed):
             for E in vals:
                 if abs(E - W) > 360:
                     continue
-                for li, form, dt in ((0, "none", "f8"), (1, "none", "f8"), (2, "none", "f8"), (0, "1d", "f8"), (1, "2d+extra", "f8")):
+                for li, form, dt in ((0, "none", "f8"), (1, "none", "f8"), (2, "none", "f8"), (0, "1d", "f8"), (1, "2d+extra", "f8"),
+                                     (1, "1d-nonneg", "f8"), (1, "1d-le180", "f8"), (1, "1d-seams", "f8")):
                     yield dict(kind="pair", lat=lname, W=W, E=E, latband=li, form=form, dtype=dt)
                 if tier == "thorough":
                     if lname == "5deg":
@@ -129,6 +130,12 @@ def run(case, rec):
         coords_out = None
         reg_out = got
     else:
+        if form == "1d-nonneg":      # arrays that already "look like" the [0, 360] convention
+            vals = [v for v in vals if v >= 0]
+        elif form == "1d-le180":     # arrays that already "look like" the [-180, 180] convention
+            vals = [v for v in vals if v <= 180]
+        elif form == "1d-seams":     # only values sitting on the seams
+            vals = [v for v in vals if v % 180 == 0] or vals[:1]
         lon = np.array(vals, dtype=dt)
         la = np.linspace(lat[0], lat[1], lon.size).astype(np.float64)
         if form == "2d+extra":
